@@ -4,8 +4,10 @@ import (
 	"bufio"
 	"flag"
 	"fmt"
+	"math"
 	"math/rand"
 	"os"
+	"strconv"
 	"strings"
 
 	"github.com/grindlemire/go-lucene/internal/lex"
@@ -37,7 +39,7 @@ var quotedWords = []string{`"q r"`, `""`, `"*"`, `"it's"`, `"a,b"`, `"NaN"`, `"5
 var wildWords = []string{"w*", "?x", "*", "a*b?c", "?", "**", "a_b*", "5*", "-3?"}
 var regexWords = []string{"/r/", "/a b/", "/b/", "/[a-z]+/", `/a\/b/`, "/5/", "//", "/AND/"}
 var escWords = []string{`a\:b`, `a\ b`, `a\\b`, `b\*`, `\(x\)`, `\+1`, `x\"y`, `\-5`, `q\?`}
-var oddWords = []string{"%!", "'", "a'b", "a;b", "a,b", "é,", "a%", "x_", "%", "|", "a|b"}
+var oddWords = []string{`\%\!`, `a\;b`, `a\,b`, "x_", `a\|b`, `\$1`, `a\'b`}
 
 func anyValue() string {
 	switch rng.Intn(16) {
@@ -465,6 +467,8 @@ func genMain(args []string) {
 		genSubst(*n)
 	case "quote":
 		genQuote(*n)
+	case "inject":
+		genInject(*n)
 	case "lex":
 		genLex(*n)
 	case "json":
@@ -655,26 +659,29 @@ func genDField(n int) {
 
 // C04(d): the same query shape with every value replaced by another of the same kind
 func sameKind(w string) string {
-	for _, set := range [][]string{intWords[:6], floatWords[:7], wildWords, regexWords} {
-		for _, x := range set {
-			if x == w {
-				for {
-					y := pick(set)
-					if (y == "*") == (w == "*") && (len(y) >= 2) == (len(w) >= 2) {
-						return y
-					}
-				}
+	switch {
+	case w == "*":
+		return w
+	case strings.HasPrefix(w, `"`) || strings.HasPrefix(w, `'`):
+		if w == `"*"` {
+			return w
+		}
+		return pick([]string{`"other"`, `"z z"`, `"o'k"`, `"7"`, `"a,c"`})
+	case strings.HasPrefix(w, "/"):
+		for {
+			y := pick(regexWords)
+			if (len(y) >= 2) == (len(w) >= 2) {
+				return y
 			}
 		}
-	}
-	if w == "*" {
-		return w
-	}
-	if !strings.HasPrefix(w, `"`) && !strings.HasPrefix(w, `'`) && strings.ContainsAny(w, "*?") {
+	case strings.ContainsAny(w, "*?"):
 		return pick([]string{"w*", "?x", "a*b?c", "a_b*"})
 	}
-	if strings.HasPrefix(w, `"`) {
-		return pick([]string{`"other"`, `"z z"`, `"o'k"`, `"7"`, `"a,c"`})
+	if _, err := strconv.Atoi(w); err == nil {
+		return pick([]string{"5", "-3", "0", "007", "42", "9223372036854775807"})
+	}
+	if f, err := strconv.ParseFloat(w, 64); err == nil && !math.IsNaN(f) && !math.IsInf(f, 0) {
+		return pick([]string{"2.5", "1e6", "-0.0", "5.0", "0.125", "1.5", "-7.25"})
 	}
 	return pick([]string{"zed", "other", "q9", "ünï"})
 }
